@@ -111,6 +111,7 @@ type World struct {
 	mEvCacheH     uint64
 	FaultsStoppedAt int64
 	Settled       bool
+	Tainted       bool
 	Forked        bool
 	ForkAt        int
 	ForkHeight    int64
